@@ -45,6 +45,7 @@ DerivedOK(e) ==
     ELSE IF e.cls = "tecmpCm" /\ Len(e.raw) >= 18 THEN
         /\ e.derived.swVersion = VersionString(<< At(e.raw, 13), At(e.raw, 14), At(e.raw, 15) >>)
         /\ e.derived.hwVersion = VersionString(<< At(e.raw, 16), At(e.raw, 17) >>)
+        /\ (Len(e.raw) >= 34 /\ Has(e.derived, "voltageCenti")) => e.derived.voltageCenti = 100 * At(e.raw, 32) + At(e.raw, 33)
     ELSE IF e.cls = "payloadType" /\ Len(e.raw) = 4 THEN e.derived.isValid = (e.raw[3] # 0 /\ e.raw[4] # 0)
     ELSE TRUE
 
